@@ -232,7 +232,7 @@ func TestC20(t *testing.T) {
 		"Distinct = distinct (violated rules, position, body/trailers shape).",
 		"the list of rules is exactly the one in the property statement; CONNECT and characters outside the token/field-value grammar are not generated",
 		"malformed requests are encoded without dynamic-table insertions and in one HEADERS frame so that HPACK accounting and frames-after-reset (C09's subject) do not interfere")
-	n := r.Pick(1500, 100000)
+	n := r.Pick(3600, 120000)
 	g := genOpts{MaxBody: 3000, AllowTrail: true, AllowUnder: true, RespStream: false, MaxRespBody: 2000}
 	for i := 0; i < n; i++ {
 		id := fmt.Sprintf("m%d", i)
@@ -280,7 +280,7 @@ func c20Scenario(r *vf.Run, t *testing.T, id string, rng *rand.Rand, g genOpts) 
 	// the verdict comes from the predicate, not from the labels (two mutations can cancel)
 	wfReason := ""
 	wellFormed, wfReason = wellFormedRequest(append(append([]F{}, bad.Pseudo...), bad.Fields...), bad.Trailers, len(bad.Body))
-	viaRoll := rng.Intn(4) == 0
+	viaRoll := rng.Intn(3) == 0
 	viaIndex := !wellFormed && viaRoll && bad.EndMode == 0
 	if viaIndex {
 		// later requests use ids above the replayed one
